@@ -12,6 +12,7 @@ import re
 import signal
 import struct
 import sys
+import subprocess as real_subprocess
 import threading as real_threading
 import traceback
 import types
@@ -74,6 +75,14 @@ class Clock:
         me.wake_at = self.now + dt
         s.switch()
 
+    def monotonic(self):
+        return self.time()
+
+    perf_counter = monotonic
+
+    def time_ns(self):
+        return int(self.time() * 1e9)
+
     # anything else the code under test might want from `time`
     def __getattr__(self, name):
         import time as _t
@@ -92,6 +101,7 @@ class Task:
         self.wake_at = None
         self.cond = None
         self.why = None
+        self.timed = False       # blocked with a (virtual-time) deadline in wake_at
 
 
 class Sched:
@@ -167,14 +177,16 @@ class Sched:
                 raise StepCap('step cap')
             cands = self._candidates()
             if not cands:
-                timers = [t.wake_at for t in self.tasks if t.state == 'sleeping']
+                timers = [t.wake_at for t in self.tasks
+                          if t.state == 'sleeping' or (t.state == 'blocked' and t.timed)]
                 timers += [a.stall_until for a in self.actors
                            if a.alive and a.stall_until is not None]
                 if not timers:
                     self._raise_hang('no runnable task and no timer')
                 # is anybody but the poller going to do something?
                 others = [t for t in self.tasks
-                          if t.state == 'sleeping' and t is not self.main]
+                          if (t.state == 'sleeping' or (t.state == 'blocked' and t.timed))
+                          and t is not self.main]
                 stalls = [a for a in self.actors if a.alive and a.stall_until is not None]
                 if not others and not stalls:
                     if self.progress == self.last_progress_seen:
@@ -218,6 +230,11 @@ class Sched:
         self.main.state = 'runnable'
         self.main.sem.release()
         me.sem.acquire()
+
+    def switch_point(self):
+        """A scheduling point at which the caller stays runnable."""
+        if self.active:
+            self.switch()
 
     def block(self, cond, why):
         me = self.current
@@ -273,8 +290,21 @@ class PipeReader:
                 del loc[:]
                 return data
 
-    def read(self):
+    def read(self, n=-1):
         p = self.pipe
+        if n is not None and n >= 0:
+            # BufferedReader.read(n): up to n bytes, blocking until n bytes or EOF
+            loc = self.local
+            while len(loc) < n:
+                self.s.block(lambda: len(p.buf) > 0 or p.closed_w, 'read ' + self.name)
+                if p.buf:
+                    loc += p.buf
+                    del p.buf[:]
+                elif p.closed_w:
+                    break
+            data = bytes(loc[:n])
+            del loc[:n]
+            return data
         out = bytearray()
         while True:
             self.s.block(lambda: len(p.buf) > 0 or p.closed_w, 'read ' + self.name)
@@ -288,6 +318,29 @@ class PipeReader:
 
     def close(self):
         pass
+
+    closed = False
+
+    def readlines(self):
+        out = []
+        while True:
+            line = self.readline()
+            if not line:
+                return out
+            out.append(line)
+
+    def __iter__(self):
+        return self
+
+    def __next__(self):
+        line = self.readline()
+        if not line:
+            raise StopIteration
+        return line
+
+    def fileno(self):
+        raise HarnessError('the code under test asked for the file descriptor of a simulated '
+                           'pipe (select/poll on child pipes is not simulated)')
 
 
 class Actor:
@@ -307,6 +360,7 @@ class Actor:
         self.on_event = on_event
         self.pending = None       # remainder of a partially written record
         self.exit_status = None
+        self.natural_status = 0
         self.killed_by_parent = False
         self.reaped = False
         self.err_delivered = 0
@@ -362,10 +416,14 @@ class Actor:
             self.exit('fault-kill')
         # 'F', 'R', 'X' records carry no pipe effect
 
-    def exit(self, why):
+    def exit(self, why, status=None):
         if not self.alive:
             return
         self.alive = False
+        # what wait() reports: the child's own end, or the signal that ended it early
+        if status is None:
+            status = -9 if why == 'fault-kill' else self.natural_status
+        self.exit_status = status
         self.out.closed_w = True
         self.err.closed_w = True
         self.s.exit_order.append(self.name)
@@ -510,13 +568,8 @@ def run_child_forked(child_args, world, plan, simpid, clock_base):
             signal.alarm(60)
             # a real child is a fresh interpreter
             purge_world_modules()
-            R.threading = real_threading
-            import subprocess as real_subprocess
-            R.subprocess = real_subprocess
             clk = Clock(base=clock_base)
-            R.time = clk
-            ZST.time = clk
-            ZSH.time = clk
+            install_seams(types.SimpleNamespace(clock=clk), real=True)
             ZF.os = os
             rt = simrt.install(world, plan, simpid,
                                sink=lambda ev: _tape_write(w, b'T', json.dumps(ev).encode()))
@@ -574,10 +627,36 @@ def run_child_forked(child_args, world, plan, simpid, clock_base):
 # parent side: simulated subprocess / threading modules
 
 
+class _SimStdin:
+    """The child's stdin as seen by the parent: layer children never read it."""
+
+    closed = False
+
+    def write(self, data):
+        return len(data)
+
+    def flush(self):
+        pass
+
+    def close(self):
+        self.closed = True
+
+
 class SimPopen:
-    def __init__(self, env, args, **kw):
+    """subprocess.Popen stand-in.  `_env` is bound in a per-execution subclass."""
+
+    _env = None
+
+    def __init__(self, args, bufsize=-1, executable=None, stdin=None, stdout=None, stderr=None,
+                 **kw):
+        env = self._env
         s = env.sched
         self.env = env
+        self.args = args
+        if isinstance(args, str):
+            import shlex
+            args = shlex.split(args)
+        args = list(args)
         try:
             i = args.index('--resume-layer')
         except ValueError:
@@ -585,9 +664,9 @@ class SimPopen:
         layer = args[i + 1]
         if list(args[:i]) != [sys.executable] + list(env.script_parts):
             raise OSError(errno.ENOENT, 'wrong child command: %r' % (args[:i],))
-        for k in ('stdin', 'stdout', 'stderr'):
-            if kw.get(k) != -1:
-                raise OSError(errno.EBADF, '%s is not a pipe' % k)
+        if stdout != -1 or stderr != -1:
+            # the result channel needs both of the child's streams
+            raise OSError(errno.EBADF, 'stdout/stderr of a layer child must be pipes')
         s.spawned += 1
         env.nspawn_attempts += 1
         for e in env.channel_faults(layer, 'spawn_fail'):
@@ -607,6 +686,7 @@ class SimPopen:
         cap = env.knobs.get('pipe_capacity', 65536)
         self.actor = Actor(s, layer, simpid, info['tape'], cap, env.on_child_event)
         self.actor.info = info
+        self.actor.natural_status = info['wait_status']
         gate = env.make_gate(self.actor)
         self.actor.gate = gate
         s.actors.append(self.actor)
@@ -620,52 +700,106 @@ class SimPopen:
         eintr = [e['nth'] for e in env.channel_faults(layer, 'eintr')]
         self.stdout = PipeReader(s, self.actor.out, layer + ':out', sorted(eintr))
         self.stderr = PipeReader(s, self.actor.err, layer + ':err', [])
-        self.stdin = None
+        self.stdin = _SimStdin() if stdin == -1 else None
         self.pid = 100000 + simpid
         self.returncode = None
         s.switch()
 
-    def kill(self):
+    def _signal(self, sig, why):
         self.actor.killed_by_parent = True
         self.env.sched.log.append(('kill', self.actor.name))
         if self.actor.alive:
             if self.actor.pos < len(self.actor.tape):
                 self.env.sched.probe('killed_with_tape_left')
-            self.actor.exit('parent-kill')
+            self.actor.exit(why, status=-sig)
+
+    def kill(self):
+        self._signal(9, 'parent-kill')
+
+    def terminate(self):
+        self._signal(15, 'parent-kill')
+
+    def send_signal(self, sig):
+        self._signal(int(sig), 'parent-kill')
+
+    def _reap(self):
+        if not self.actor.reaped:
+            self.actor.reaped = True
+            self.env.sched.log.append(('reap', self.actor.name))
+        self.returncode = self.actor.exit_status
+        return self.returncode
 
     def communicate(self, input=None, timeout=None):
-        self.actor.reaped = True
-        self.env.sched.log.append(('reap', self.actor.name))
-        if self.actor.alive:
-            # would block until the child exits
-            self.env.sched.block(lambda: not self.actor.alive, 'communicate')
-        return b'', b''
+        from . import simsync
+        a = self.actor
+        s = self.env.sched
+        out = bytearray(self.stdout.local)
+        err = bytearray(self.stderr.local)
+        del self.stdout.local[:], self.stderr.local[:]
+        deadline = None if timeout is None else s.clock.now + timeout
+        while True:
+            out += a.out.buf
+            err += a.err.buf
+            del a.out.buf[:], a.err.buf[:]
+            if not a.alive:
+                break
+            left = None if deadline is None else deadline - s.clock.now
+            if left is not None and left <= 0:
+                self.stdout.local += out
+                self.stderr.local += err
+                raise real_subprocess.TimeoutExpired(self.args, timeout)
+            simsync._wait(s, lambda: a.out.buf or a.err.buf or not a.alive, 'communicate', left)
+        self._reap()
+        return bytes(out), bytes(err)
 
     def wait(self, timeout=None):
-        self.env.sched.block(lambda: not self.actor.alive, 'wait')
-        return 0
+        from . import simsync
+        a = self.actor
+        if a.alive:
+            if not simsync._wait(self.env.sched, lambda: not a.alive, 'wait', timeout):
+                raise real_subprocess.TimeoutExpired(self.args, timeout)
+        return self._reap()
 
     def poll(self):
-        return None if self.actor.alive else 0
+        if self.actor.alive:
+            return None
+        return self._reap()
+
+    def __enter__(self):
+        return self
+
+    def __exit__(self, *exc):
+        self.wait()
 
 
 class SimThread:
-    def __init__(self, env, group=None, target=None, name=None, args=(), kwargs=None,
+    """threading.Thread stand-in: a real thread that only runs while it holds the baton.
+    `_env` is bound in a per-execution subclass (install_seams), so the runner may also
+    subclass it."""
+
+    _env = None
+
+    def __init__(self, group=None, target=None, name=None, args=(), kwargs=None,
                  daemon=None):
-        self.env = env
+        env = self._env
         env.nthreads += 1
         self.name = name or 'SimThread-%d' % env.nthreads
-        self.target, self.args, self.kwargs = target, args, kwargs or {}
+        self._target, self._args, self._kwargs = target, args, kwargs or {}
         self.daemon = bool(daemon)
         self.task = Task(self.name)
         self.task.state = 'new'
         self.ident = None
+        self.native_id = None
+
+    def run(self):
+        if self._target is not None:
+            self._target(*self._args, **self._kwargs)
 
     def _body(self):
-        s = self.env.sched
+        s = self._env.sched
         self.task.sem.acquire()
         try:
-            self.target(*self.args, **self.kwargs)
+            self.run()
         except BaseException as e:  # noqa
             if isinstance(e, HarnessError):
                 HARNESS_ERRORS.append(str(e))
@@ -680,20 +814,41 @@ class SimThread:
                     pass
 
     def start(self):
-        s = self.env.sched
+        s = self._env.sched
+        if self.task.state != 'new':
+            raise RuntimeError('threads can only be started once')
         self.task.state = 'runnable'
         self.real = real_threading.Thread(target=self._body, daemon=True,
                                           name='vsim-' + self.name)
         s.tasks.append(self.task)
+        self.ident = self.native_id = 1000 + self._env.nthreads
         self.real.start()
         s.switch()
 
     def is_alive(self):
         return self.task.state not in ('done', 'new')
 
+    isAlive = is_alive
+
     def join(self, timeout=None):
-        s = self.env.sched
-        s.block(lambda: self.task.state == 'done', 'join ' + self.name)
+        s = self._env.sched
+        if timeout is None:
+            s.block(lambda: self.task.state == 'done', 'join ' + self.name)
+        else:
+            from . import simsync
+            simsync._wait(s, lambda: self.task.state == 'done', 'join ' + self.name, timeout)
+
+    def setDaemon(self, v):
+        self.daemon = bool(v)
+
+    def isDaemon(self):
+        return self.daemon
+
+    def getName(self):
+        return self.name
+
+    def setName(self, n):
+        self.name = n
 
 
 # ---------------------------------------------------------------------------------------
@@ -844,7 +999,14 @@ class Env:
         report = b''
         if closed_at is not None:
             report = b''.join(p for t, p in tape[closed_at + 1:] if t == 'E')
+        if os.WIFSIGNALED(status):
+            wait_status = -os.WTERMSIG(status)
+        elif exitcode is not None:
+            wait_status = exitcode
+        else:
+            wait_status = os.WEXITSTATUS(status)
         info = {'layer': layer, 'simpid': simpid, 'truth': truth, 'died': died,
+                'wait_status': wait_status,
                 'exitcode': exitcode, 'report_len': len(report), 'report_complete': False,
                 'args': child_args, 'channel': [], 'noise_header_before_report': False}
         complete = bool(report) and truth is not None
@@ -964,17 +1126,128 @@ class Env:
         return info
 
 
-def install_seams(env):
-    R.subprocess = types.SimpleNamespace(
-        Popen=lambda args, **kw: SimPopen(env, args, **kw), PIPE=-1, STDOUT=-2, DEVNULL=-3)
-    R.threading = types.SimpleNamespace(
-        Thread=lambda *a, **kw: SimThread(env, *a, **kw),
+SEAM_MODULES = ('zope.testrunner.runner', 'zope.testrunner.statistics',
+                'zope.testrunner.shuffle', 'zope.testrunner.formatter',
+                'zope.testrunner.process', 'zope.testrunner')
+_PRISTINE = {}
+
+
+def _pristine(mod):
+    """Names of `mod` that refer to a nondeterminism source, as first seen (before any seam)."""
+    import queue as real_queue
+    import time as real_time
+    if mod.__name__ not in _PRISTINE:
+        found = {}
+        for k, v in list(vars(mod).items()):
+            if v is real_time:
+                found[k] = 'time'
+            elif v is real_subprocess:
+                found[k] = 'subprocess'
+            elif v is real_threading:
+                found[k] = 'threading'
+            elif v is real_queue:
+                found[k] = 'queue'
+            elif v is real_time.time:
+                found[k] = 'time.time'
+            elif v is real_time.sleep:
+                found[k] = 'time.sleep'
+            elif v in (real_time.monotonic, real_time.perf_counter):
+                found[k] = 'time.monotonic'
+            elif v is real_subprocess.Popen:
+                found[k] = 'subprocess.Popen'
+            elif v is real_threading.Thread:
+                found[k] = 'threading.Thread'
+            elif v is real_threading.Lock:
+                found[k] = 'threading.Lock'
+            elif v is real_threading.RLock:
+                found[k] = 'threading.RLock'
+            elif v is real_threading.Event:
+                found[k] = 'threading.Event'
+            elif v is real_threading.Condition:
+                found[k] = 'threading.Condition'
+            elif v is real_threading.Semaphore:
+                found[k] = 'threading.Semaphore'
+            elif v is real_queue.Queue:
+                found[k] = 'queue.Queue'
+            elif v is real_queue.SimpleQueue:
+                found[k] = 'queue.SimpleQueue'
+        _PRISTINE[mod.__name__] = found
+    return _PRISTINE[mod.__name__]
+
+
+def sim_namespaces(env):
+    """The simulated time/subprocess/threading/queue modules of one execution."""
+    import queue as real_queue
+    from . import simsync
+    s = env.sched
+    Popen = type('Popen', (SimPopen,), {'_env': env})
+    Thread = type('Thread', (SimThread,), {'_env': env})
+    sub = types.SimpleNamespace(
+        Popen=Popen, PIPE=-1, STDOUT=-2, DEVNULL=-3,
+        TimeoutExpired=real_subprocess.TimeoutExpired,
+        CalledProcessError=real_subprocess.CalledProcessError,
+        SubprocessError=real_subprocess.SubprocessError,
+        list2cmdline=real_subprocess.list2cmdline)
+    thr = types.SimpleNamespace(
+        Thread=Thread,
+        Lock=lambda: simsync.SimLock(s), RLock=lambda: simsync.SimRLock(s),
+        Event=lambda: simsync.SimEvent(s),
+        Condition=lambda lock=None: simsync.SimCondition(s, lock),
+        Semaphore=lambda value=1: simsync.SimSemaphore(s, value),
+        BoundedSemaphore=lambda value=1: simsync.SimSemaphore(s, value),
         current_thread=real_threading.current_thread,
-        enumerate=real_threading.enumerate)
-    R.time = env.clock
-    ZST.time = env.clock
-    ZSH.time = env.clock
-    zope.testrunner.runner.Runner = RecordingRunner
+        main_thread=real_threading.main_thread,
+        enumerate=real_threading.enumerate,
+        active_count=real_threading.active_count,
+        get_ident=real_threading.get_ident,
+        local=real_threading.local,
+        excepthook=real_threading.excepthook,
+        settrace=real_threading.settrace, setprofile=real_threading.setprofile,
+        TIMEOUT_MAX=real_threading.TIMEOUT_MAX)
+    que = types.SimpleNamespace(
+        Queue=lambda maxsize=0: simsync.SimQueue(s, maxsize),
+        LifoQueue=lambda maxsize=0: simsync.SimLifoQueue(s, maxsize),
+        SimpleQueue=lambda: simsync.SimSimpleQueue(s),
+        Empty=real_queue.Empty, Full=real_queue.Full)
+    return {'time': env.clock, 'subprocess': sub, 'threading': thr, 'queue': que}
+
+
+def install_seams(env, real=False):
+    """Point every name through which the runner reaches a clock, processes, threads or queues
+    at the simulator - whichever way it was imported (`import time`, `from time import sleep`,
+    ...).  real=True (layer children, stub validation): only the clock is simulated."""
+    import importlib
+    import queue as real_queue
+    ns = sim_namespaces(env) if not real else {
+        'time': env.clock, 'subprocess': real_subprocess, 'threading': real_threading,
+        'queue': real_queue}
+    for name in SEAM_MODULES:
+        try:
+            mod = importlib.import_module(name)
+        except ImportError:
+            continue
+        for k, what in _pristine(mod).items():
+            base, _, attr = what.partition('.')
+            if not attr:
+                setattr(mod, k, ns[base])
+            elif what == 'time.monotonic':
+                setattr(mod, k, env.clock.time)
+            else:
+                setattr(mod, k, getattr(ns[base], attr))
+    if not real:
+        zope.testrunner.runner.Runner = RecordingRunner
+
+
+def _scan_pristine():
+    import importlib
+    for name in SEAM_MODULES:
+        try:
+            _pristine(importlib.import_module(name))
+        except ImportError:
+            pass
+
+
+_scan_pristine()
 
 
 class Result:
